@@ -93,20 +93,18 @@ Proof.
   unfold send_gates. intros [H|H]; rewrite H; cbn; rewrite ?andb_false_r; reflexivity.
 Qed.
 
-(* the state after a frame fr was written and journaled *)
+(* the state after a reply frame fr was written: the journal and the counters are not touched *)
 Definition sent (fr : row) (s : st) : st :=
-  mkSt (cstate s) (initiator s) (testreq_pending s) (nout s) (r_seq fr) (clock s + 1)
-       (rows s ++ [fr]) (wire s ++ [fr]) (calls s) (states s).
+  mkSt (cstate s) (initiator s) (testreq_pending s) (nout s) (sout s) (clock s + 1)
+       (rows s) (wire s ++ [fr]) (calls s) (states s).
 
 Definition gap_frame (a h k : Z) : row :=
   mkRow a MT_SEQUENCERESET (time_str k) [(T_GapFillFlag, V_Y); (T_NewSeqNo, z_to_dec h)].
 
 Lemma send_gap_fill a h s :
-  sending_ok s -> has_key a (rows s) = false ->
-  send_msg (gap_fill_msg a h) s = Ok (sent (gap_frame a h (clock s + 1)) s).
+  sending_ok s -> send_msg (gap_fill_msg a h) s = Ok (sent (gap_frame a h (clock s + 1)) s).
 Proof.
-  intros Hs Hk. unfold send_msg. rewrite gates_ok by assumption.
-  cbn. unfold persist. cbn. unfold has_key in Hk. rewrite Hk. reflexivity.
+  intros Hs. unfold send_msg. rewrite gates_ok by assumption. reflexivity.
 Qed.
 
 Definition copy_frame (r : row) (k : Z) : row :=
@@ -120,25 +118,32 @@ Proof.
   apply negb_true_iff in H1, H2. rewrite H1, has_tag_app, H2. reflexivity.
 Qed.
 
+(* a retransmission built by mk_replay is written under its own number and not journaled *)
+Lemma send_replay_gen r m s :
+  sending_ok s -> is_sess_type (r_type r) = false -> mk_replay r = Some m ->
+  send_msg m s = Ok (sent (mkRow (r_seq r) (r_type r) (time_str (clock s + 1))
+                                 (filter (fun fd => negb (header_skipped (fst fd))) (m_fields m))) s).
+Proof.
+  intros Hs Ht Hm. unfold mk_replay in Hm.
+  destruct (has_tag T_PossDupFlag (r_body r)) eqn:H43; [discriminate|].
+  destruct (has_tag T_OrigSendingTime (r_body r ++ [(T_PossDupFlag, V_Y)])); [discriminate|].
+  injection Hm as <-. unfold send_msg. rewrite gates_ok by assumption.
+  destruct (sess_false_types _ Ht) as [Ht1 Ht4]. cbn [m_type m_seq m_fields].
+  rewrite Ht1. cbn [andb]. unfold select_seq, is_resend_reply, tag_is_Y. cbn [m_type m_seq m_fields]. rewrite Ht4.
+  rewrite (get_tag_app_notin _ _ _ H43).
+  change (get_tag T_PossDupFlag [(T_PossDupFlag, V_Y); (T_OrigSendingTime, r_time r)]) with (Some V_Y).
+  cbv iota beta. change (str_eqb V_Y V_Y) with true. cbv iota beta. cbn [orb]. reflexivity.
+Qed.
+
 Lemma send_replay r s :
   sending_ok s -> is_sess_type (r_type r) = false -> clean r = true -> codec_row r = true ->
-  has_key (r_seq r) (rows s) = false ->
   send_msg (mkMsg (r_type r) (Some (r_seq r))
                   (r_body r ++ [(T_PossDupFlag, V_Y); (T_OrigSendingTime, r_time r)])) s
   = Ok (sent (copy_frame r (clock s + 1)) s).
 Proof.
-  intros Hs Ht Hc Hcr Hk. unfold send_msg. rewrite gates_ok by assumption.
-  destruct (sess_false_types _ Ht) as [Ht1 Ht4]. cbn [m_type m_seq m_fields].
-  rewrite Ht1. cbn [andb]. unfold select_seq. cbn [m_type m_seq m_fields]. rewrite Ht4.
-  unfold clean in Hc. apply andb_true_iff in Hc as [Hc1 Hc2]. apply negb_true_iff in Hc1, Hc2.
-  rewrite (get_tag_app_notin _ _ _ Hc1).
-  change (get_tag T_PossDupFlag [(T_PossDupFlag, V_Y); (T_OrigSendingTime, r_time r)]) with (Some V_Y).
-  cbv iota beta. change (str_eqb V_Y V_Y) with true. cbv iota beta.
-  rewrite filter_app. unfold codec_row in Hcr. rewrite filter_all by exact Hcr.
-  change (filter (fun f0 : field => negb (header_skipped (fst f0)))
-                 [(T_PossDupFlag, V_Y); (T_OrigSendingTime, r_time r)])
-    with [(T_PossDupFlag, V_Y); (T_OrigSendingTime, r_time r)].
-  unfold persist. cbn [r_seq rows]. unfold has_key in *. rewrite Hk. reflexivity.
+  intros Hs Ht Hc Hcr. rewrite (send_replay_gen r _ s Hs Ht (mk_replay_clean r Hc)).
+  cbn [m_fields]. rewrite filter_app. unfold codec_row in Hcr. rewrite filter_all by exact Hcr.
+  reflexivity.
 Qed.
 
 (* ------------------------------------------------------------------ the replay / gap-fill loop *)
@@ -149,71 +154,61 @@ Proof.
   destruct H as (H1 & _ & H3). destruct Hin as [<-|Hin]; [lia|]. specialize (IH _ H3 _ Hin). lia.
 Qed.
 
-Lemma has_key_false n l : (forall r, In r l -> r_seq r < n) -> has_key n l = false.
-Proof.
-  unfold has_key. intros H. apply not_true_is_false. intros Hx.
-  apply existsb_exists in Hx as (r & Hin & He). specialize (H _ Hin). lia.
-Qed.
-
-(* s' differs from s by the frames W written and journaled (and by counters the handler overwrites) *)
+(* s' differs from s only by the frames W written (and by the clock and the hook records): the
+   journal, both counters and the state are the same *)
 Definition same_but (s s' : st) (W : list row) : Prop :=
-  cstate s' = cstate s /\ nout s' = nout s /\ rows s' = rows s ++ W /\ wire s' = wire s ++ W
-  /\ states s' = states s.
+  cstate s' = cstate s /\ nout s' = nout s /\ sout s' = sout s /\ rows s' = rows s
+  /\ wire s' = wire s ++ W /\ states s' = states s.
 
 Lemma same_but_refl s : same_but s s [].
-Proof. unfold same_but. rewrite !app_nil_r. auto. Qed.
+Proof. unfold same_but. rewrite !app_nil_r. auto 10. Qed.
 
 Lemma same_but_trans s s1 s2 W1 W2 : same_but s s1 W1 -> same_but s1 s2 W2 -> same_but s s2 (W1 ++ W2).
 Proof.
-  unfold same_but. intros (a1 & a2 & a3 & a4 & a5) (b1 & b2 & b3 & b4 & b5).
-  rewrite b1, b2, b3, b4, b5, a1, a2, a3, a4, a5, !app_assoc. auto.
+  unfold same_but. intros (a1 & a2 & a3 & a4 & a5 & a6) (b1 & b2 & b3 & b4 & b5 & b6).
+  rewrite b1, b2, b3, b4, b5, b6, a1, a2, a3, a4, a5, a6, !app_assoc. auto 10.
 Qed.
 
 Lemma same_but_sent fr s : same_but s (sent fr s) [fr].
-Proof. unfold same_but, sent; cbn. auto. Qed.
+Proof. unfold same_but, sent; cbn. auto 10. Qed.
 
 Lemma same_but_note n s : same_but s (note_call n s) [].
-Proof. unfold same_but, note_call; cbn. rewrite !app_nil_r. auto. Qed.
+Proof. unfold same_but, note_call; cbn. rewrite !app_nil_r. auto 10. Qed.
 
-Definition pre (J : list row) (f : row -> bool) (c : Z) (rs : list row) (gfb gfe : Z) (rws : list row) : Prop :=
-  (forall r, In r rws -> r_seq r < gfb)
-  /\ rows_ok f (Z.max gfb gfe) rs
+Definition pre (J : list row) (f : row -> bool) (c : Z) (rs : list row) (gfb gfe : Z) : Prop :=
+  rows_ok f (Z.max gfb gfe) rs
   /\ (forall r, In r rs -> In r J /\ codec_row r = true /\ r_seq r < c)
   /\ (forall r, In r J -> Z.max gfb gfe <= r_seq r -> In r rs)
   /\ (forall n, gfb <= n < Z.max gfb gfe -> skipped J f n)
   /\ Z.max gfb gfe <= c.
 
-Lemma pre_skip J f c r rest gfb gfe rws :
-  pre J f c (r :: rest) gfb gfe rws -> replayable f r = false -> pre J f c rest gfb (r_seq r + 1) rws.
+Lemma pre_skip J f c r rest gfb gfe :
+  pre J f c (r :: rest) gfb gfe -> replayable f r = false -> pre J f c rest gfb (r_seq r + 1).
 Proof.
-  intros (H1 & H2 & H3 & H4 & H5 & H6) Hr. cbn [rows_ok] in H2. destruct H2 as (H2a & _ & H2c).
+  intros (H2 & H3 & H4 & H5 & H6) Hr. cbn [rows_ok] in H2. destruct H2 as (H2a & _ & H2c).
   assert (Hmax : Z.max gfb (r_seq r + 1) = r_seq r + 1) by lia.
   pose proof (rows_ok_lb _ _ _ H2c) as Hlb.
-  unfold pre. rewrite Hmax. repeat split.
-  - exact H1.
-  - exact H2c.
-  - apply H3; right; assumption.
-  - apply H3; right; assumption.
-  - apply H3; right; assumption.
-  - intros x Hx Hge. destruct (H4 x Hx ltac:(lia)) as [<-|Hin]; [lia|exact Hin].
+  unfold pre. rewrite Hmax.
+  split; [exact H2c|]. split; [intros x Hx; apply H3; right; exact Hx|].
+  split; [intros x Hx Hge; destruct (H4 x Hx ltac:(lia)) as [<-|Hin]; [lia|exact Hin]|].
+  split.
   - intros n Hn x Hx Hsx. destruct (Z.ltb_spec n (Z.max gfb gfe)) as [Hlt|Hge].
     + apply (H5 n ltac:(lia) x Hx Hsx).
     + destruct (H4 x Hx ltac:(lia)) as [<-|Hin]; [exact Hr|]. specialize (Hlb _ Hin). lia.
   - destruct (H3 r (or_introl eq_refl)) as (_ & _ & Hc). lia.
 Qed.
 
-Lemma pre_replay J f c r rest gfb gfe rws rws' :
-  pre J f c (r :: rest) gfb gfe rws -> replayable f r = true ->
-  (forall x, In x rws' -> r_seq x < r_seq r + 1) ->
-  pre J f c rest (r_seq r + 1) gfe rws'
+Lemma pre_replay J f c r rest gfb gfe :
+  pre J f c (r :: rest) gfb gfe -> replayable f r = true ->
+  pre J f c rest (r_seq r + 1) gfe
   /\ r_seq r = Z.max gfb gfe /\ clean r = true /\ In r J /\ codec_row r = true.
 Proof.
-  intros (H1 & H2 & H3 & H4 & H5 & H6) Hr Hrws. cbn [rows_ok] in H2. destruct H2 as (H2a & H2b & H2c).
+  intros (H2 & H3 & H4 & H5 & H6) Hr. cbn [rows_ok] in H2. destruct H2 as (H2a & H2b & H2c).
   destruct (H2b Hr) as (Hp & Hcl).
   assert (Hmax : Z.max (r_seq r + 1) gfe = r_seq r + 1) by lia.
   destruct (H3 r (or_introl eq_refl)) as (HJ & Hcr & Hc).
   split; [|auto]. unfold pre. rewrite Hmax.
-  split; [exact Hrws|]. split; [exact H2c|].
+  split; [exact H2c|].
   split; [intros x Hx; apply H3; right; exact Hx|].
   split; [intros x Hx Hge; destruct (H4 x Hx ltac:(lia)) as [<-|Hin]; [lia|exact Hin]|].
   split; [intros n Hn; lia|lia].
@@ -225,58 +220,40 @@ Lemma gap_is_gap a h k : is_gap_fill (gap_frame a h k) a h.
 Proof. unfold is_gap_fill, gap_frame; cbn; auto. Qed.
 
 Lemma loop_ok J f lim c : forall rs gfb gfe s,
-  sending_ok s -> pre J f c rs gfb gfe (rows s) ->
+  sending_ok s -> pre J f c rs gfb gfe ->
   exists gfb' gfe' s' W,
     replay_loop f rs gfb gfe s = LOk gfb' gfe' s'
     /\ same_but s s' W
     /\ chain J f lim gfb gfb' W
     /\ (forall n, gfb' <= n < Z.max gfb' gfe' -> skipped J f n)
     /\ (forall r, In r J -> r_seq r < Z.max gfb' gfe')
-    /\ Z.max gfb' gfe' <= c
-    /\ (forall r, In r (rows s') -> r_seq r < gfb').
+    /\ Z.max gfb' gfe' <= c.
 Proof.
   induction rs as [|r rest IH]; intros gfb gfe s Hs Hpre.
-  - exists gfb, gfe, s, []. destruct Hpre as (H1 & H2 & H3 & H4 & H5 & H6).
-    repeat split; try apply same_but_refl; try assumption.
-    + constructor.
-    + intros x Hx. destruct (Z.ltb_spec (r_seq x) (Z.max gfb gfe)); [assumption|]. destruct (H4 x Hx); assumption.
+  - exists gfb, gfe, s, []. destruct Hpre as (H2 & H3 & H4 & H5 & H6).
+    split; [reflexivity|]. split; [apply same_but_refl|]. split; [constructor|].
+    split; [exact H5|]. split; [|exact H6].
+    intros x Hx. destruct (Z.ltb_spec (r_seq x) (Z.max gfb gfe)); [assumption|]. destruct (H4 x Hx); assumption.
   - cbn [replay_loop]. destruct (is_sess_type (r_type r)) eqn:Hst.
-    + (* session-level row *)
-      assert (Hr : replayable f r = false) by (unfold replayable; rewrite Hst; reflexivity).
-      exact (IH gfb (r_seq r + 1) s Hs (pre_skip _ _ _ _ _ _ _ _ Hpre Hr)).
+    + assert (Hr : replayable f r = false) by (unfold replayable; rewrite Hst; reflexivity).
+      exact (IH gfb (r_seq r + 1) s Hs (pre_skip _ _ _ _ _ _ _ Hpre Hr)).
     + set (s0 := note_call (r_seq r) s).
       assert (Hs0 : sending_ok s0) by exact Hs.
-      assert (Hrows0 : rows s0 = rows s) by reflexivity.
       destruct (f r) eqn:Hf; cbn [negb].
-      2:{ (* declined by the application *)
-        assert (Hr : replayable f r = false) by (unfold replayable; rewrite Hf, andb_false_r; reflexivity).
-        pose proof (pre_skip _ _ _ _ _ _ _ _ Hpre Hr) as Hpre'. rewrite <- Hrows0 in Hpre'.
-        destruct (IH gfb (r_seq r + 1) s0 Hs0 Hpre') as (g1 & g2 & s' & W & E & Hsb & rest').
-        exists g1, g2, s', W. split; [exact E|]. split; [|exact rest'].
-        exact (same_but_trans _ _ _ _ _ (same_but_note (r_seq r) s) Hsb). }
-      (* retransmitted *)
+      2:{ assert (Hr : replayable f r = false) by (unfold replayable; rewrite Hf, andb_false_r; reflexivity).
+          destruct (IH gfb (r_seq r + 1) s0 Hs0 (pre_skip _ _ _ _ _ _ _ Hpre Hr)) as (g1 & g2 & s' & W & E & Hsb & rest').
+          exists g1, g2, s', W. split; [exact E|]. split; [|exact rest'].
+          exact (same_but_trans _ _ _ _ _ (same_but_note (r_seq r) s) Hsb). }
       assert (Hr : replayable f r = true) by (unfold replayable; rewrite Hst, Hf; reflexivity).
-      pose proof Hpre as (Hlt & _ & _ & _ & Hsk & _).
+      pose proof Hpre as (_ & _ & _ & Hsk & _).
+      destruct (pre_replay _ _ _ _ _ _ _ Hpre Hr) as (Hpre' & Hp & Hcl & HJ & Hcr).
+      rewrite (mk_replay_clean _ Hcl).
       destruct (gfb <? gfe) eqn:Hcmp.
-      * (* pending gap fill first *)
-        set (g := gap_frame gfb gfe (clock s0 + 1)). set (s1 := sent g s0).
-        assert (Hk0 : has_key gfb (rows s0) = false) by (apply has_key_false; rewrite Hrows0; exact Hlt).
-        rewrite (send_gap_fill gfb gfe s0 Hs0 Hk0). fold g. fold s1.
-        set (cp := copy_frame r (clock s1 + 1)). set (s2 := sent cp s1).
-        assert (Hrows2 : forall x, In x (rows s2) -> r_seq x < r_seq r + 1).
-        { destruct (pre_replay _ _ _ _ _ _ _ _ [] Hpre Hr ltac:(cbn; tauto)) as (_ & Hp & _).
-          intros x Hx. unfold s2, s1, sent in Hx; cbn [rows] in Hx. rewrite Hrows0 in Hx.
-          apply in_app_or in Hx as [Hx|[<-|[]]]; [apply in_app_or in Hx as [Hx|[<-|[]]]|].
-          - specialize (Hlt _ Hx). lia.
-          - cbn. lia.
-          - cbn. lia. }
-        destruct (pre_replay _ _ _ _ _ _ _ _ _ Hpre Hr Hrows2) as (Hpre' & Hp & Hcl & HJ & Hcr).
-        rewrite (mk_replay_clean _ Hcl).
+      * set (g := gap_frame gfb gfe (clock s0 + 1)). set (s1 := sent g s0).
+        rewrite (send_gap_fill gfb gfe s0 Hs0). fold g. fold s1.
         assert (Hs1 : sending_ok s1) by exact Hs.
-        assert (Hk1 : has_key (r_seq r) (rows s1) = false).
-        { apply has_key_false. intros x Hx. unfold s1, sent in Hx; cbn [rows] in Hx. rewrite Hrows0 in Hx.
-          apply in_app_or in Hx as [Hx|[<-|[]]]; [specialize (Hlt _ Hx); lia|cbn; lia]. }
-        rewrite (send_replay r s1 Hs1 Hst Hcl Hcr Hk1). fold cp. fold s2.
+        set (cp := copy_frame r (clock s1 + 1)). set (s2 := sent cp s1).
+        rewrite (send_replay r s1 Hs1 Hst Hcl Hcr). fold cp. fold s2.
         assert (Hs2 : sending_ok s2) by exact Hs.
         destruct (IH (r_seq r + 1) gfe s2 Hs2 Hpre') as (g1 & g2 & s' & W & E & Hsb & Hch & rest').
         exists g1, g2, s', (g :: cp :: W). split; [exact E|]. split; [|split; [|exact rest']].
@@ -288,18 +265,8 @@ Proof.
            ++ right. intros Hskip. specialize (Hskip r HJ ltac:(lia)). congruence.
            ++ replace gfe with (r_seq r) by lia.
               apply chain_replay with (r := r); auto; apply copy_is_copy.
-      * (* no pending gap *)
-        set (cp := copy_frame r (clock s0 + 1)). set (s2 := sent cp s0).
-        assert (Hp0 : r_seq r = Z.max gfb gfe).
-        { destruct (pre_replay _ _ _ _ _ _ _ _ [] Hpre Hr ltac:(cbn; tauto)) as (_ & Hp & _). exact Hp. }
-        assert (Hrows2 : forall x, In x (rows s2) -> r_seq x < r_seq r + 1).
-        { intros x Hx. unfold s2, sent in Hx; cbn [rows] in Hx. rewrite Hrows0 in Hx.
-          apply in_app_or in Hx as [Hx|[<-|[]]]; [specialize (Hlt _ Hx); lia|cbn; lia]. }
-        destruct (pre_replay _ _ _ _ _ _ _ _ _ Hpre Hr Hrows2) as (Hpre' & Hp & Hcl & HJ & Hcr).
-        rewrite (mk_replay_clean _ Hcl).
-        assert (Hk1 : has_key (r_seq r) (rows s0) = false).
-        { apply has_key_false. rewrite Hrows0. intros x Hx. specialize (Hlt _ Hx). lia. }
-        rewrite (send_replay r s0 Hs0 Hst Hcl Hcr Hk1). fold cp. fold s2.
+      * set (cp := copy_frame r (clock s0 + 1)). set (s2 := sent cp s0).
+        rewrite (send_replay r s0 Hs0 Hst Hcl Hcr). fold cp. fold s2.
         assert (Hs2 : sending_ok s2) by exact Hs.
         destruct (IH (r_seq r + 1) gfe s2 Hs2 Hpre') as (g1 & g2 & s' & W & E & Hsb & Hch & rest').
         exists g1, g2, s', (cp :: W). split; [exact E|]. split; [|split; [|exact rest']].
@@ -373,12 +340,13 @@ Qed.
 (* ------------------------------------------------------------------ the property, as one predicate *)
 
 (* the numbers [lo, hi) a ResendRequest asks for, None for a request that must not be answered
-   (unreadable, BeginSeqNo < 1, EndSeqNo below BeginSeqNo) *)
+   (unreadable, EndSeqNo below BeginSeqNo) *)
 Definition requested_range (s : st) (bs es : option str) : option (Z * Z) :=
   match bs, es with
   | Some bs, Some es =>
       match py_int bs, py_int es with
-      | Some b, Some e0 =>
+      | Some b0, Some e0 =>
+          let b := clamp1 b0 in          (* BeginSeqNo below 1 means "from the first message" *)
           if (1 <=? b) && ((e0 =? 0) || (b <=? e0))
           then Some (b, Z.max b (if e0 =? 0 then nout s else Z.min (e0 + 1) (nout s)))
           else None
@@ -388,22 +356,20 @@ Definition requested_range (s : st) (bs es : option str) : option (Z * Z) :=
   end.
 
 (* C06 for one request in one state: the frames written form the chain over the requested range of
-   already-sent numbers; journaled messages outside the range, the next outbound number (live and
-   stored) and the connection state are what they were. *)
+   already-sent numbers (nothing is written for a request that must not be answered); the whole
+   outbound journal - inside and outside the range -, the next outbound number (live and stored)
+   and the connection state are what they were. *)
 Definition resend_correct (f : row -> bool) (s : st) (bs es : option str) : Prop :=
   let s' := fst (process_resend f bs es s) in
   exists W, wire s' = wire s ++ W
     /\ match requested_range s bs es with
-       | Some (lo, hi) =>
-           chain (rows s) f hi lo hi W
-           /\ (forall r, r_seq r < lo \/ hi <= r_seq r -> (In r (rows s') <-> In r (rows s)))
-       | None => W = [] /\ (forall r, In r (rows s') <-> In r (rows s))
+       | Some (lo, hi) => chain (rows s) f hi lo hi W
+       | None => W = []
        end
-    /\ nout s' = nout s /\ sout s' = sout s /\ cstate s' = cstate s.
+    /\ rows s' = rows s /\ nout s' = nout s /\ sout s' = sout s /\ cstate s' = cstate s.
 
 Definition journal_ok (s : st) : Prop :=
   Forall (fun r => r_seq r < nout s /\ codec_row r = true) (rows s)   (* rows written by send_msg below the counter *)
-  /\ sout s = nout s - 1                                               (* stored counter in step (C05) *)
   /\ nout s <= INT64_MAX.
 
 Lemma body_ok f s b e0 :
@@ -412,11 +378,10 @@ Lemma body_ok f s b e0 :
   rows_ok f b (recover b (if e0 =? 0 then sys_maxsize else e0) (rows s)) ->
   exists W s', resend_body f b e0 s = (s', None)
     /\ wire s' = wire s ++ W /\ chain (rows s) f (nout s) b (nout s) W
-    /\ nout s' = nout s /\ sout s' = nout s - 1
-    /\ rows s' = filter (fun r => r_seq r <? b) (rows s) ++ W
+    /\ nout s' = nout s /\ sout s' = sout s /\ rows s' = rows s
     /\ cstate s' = (if cstate s =? ST_AWAITING then cstate s else ST_ACTIVE).
 Proof.
-  intros Hs (HJ & Hso & Hmax) Hb He0 Hcov Hok.
+  intros Hs (HJ & Hmax) Hb He0 Hcov Hok.
   set (J := rows s) in *. set (c := nout s) in *.
   set (e := if e0 =? 0 then sys_maxsize else e0) in *.
   rewrite Forall_forall in HJ.
@@ -426,86 +391,60 @@ Proof.
   assert (Hfe : fits_int64 e = true).
   { unfold e. destruct (e0 =? 0); [rewrite Hsm; reflexivity|exact He0]. }
   rewrite Hfb, Hfe. cbn [andb negb].
-  unfold set_seq_num_out at 1. destruct (b <=? 0) eqn:Hb0; [lia|].
-  set (s1 := mkSt (cstate s) (initiator s) (testreq_pending s) b (b - 1) (clock s)
-                  (filter (fun r => r_seq r <? b) (rows s)) (wire s) (calls s) (states s)).
-  assert (Hs1 : sending_ok s1) by exact Hs.
-  assert (Hpre : pre J f c (recover b e J) b b (rows s1)).
-  { unfold pre. rewrite Z.max_id. split; [|split; [exact Hok|split; [|split; [|split]]]].
-    - intros r Hr. cbn [rows s1] in Hr. apply filter_In in Hr as [_ Hr]. lia.
+  assert (Hpre : pre J f c (recover b e J) b b).
+  { unfold pre. rewrite Z.max_id. split; [exact Hok|split; [|split; [|split]]].
     - intros r Hr. apply in_recover in Hr as [Hr _]. destruct (HJ _ Hr). auto.
     - intros r Hr Hge. apply in_recover. split; [exact Hr|]. destruct (HJ _ Hr) as [Hlt _].
       unfold e. destruct (e0 =? 0) eqn:E0; [rewrite Hsm; lia|]. lia.
     - intros n Hn. lia.
     - lia. }
-  destruct (loop_ok J f c c _ _ _ _ Hs1 Hpre) as (g1 & g2 & s2 & W & E & Hsb & Hch & Hsk & Hall & Hle & Hrows2).
-  rewrite E. destruct Hsb as (Hc2 & Hn2 & Hr2 & Hw2 & Hst2).
+  destruct (loop_ok J f c c _ _ _ _ Hs Hpre) as (g1 & g2 & s2 & W & E & Hsb & Hch & Hsk & Hall & Hle).
+  rewrite E. destruct Hsb as (Hc2 & Hn2 & Hso2 & Hr2 & Hw2 & Hst2).
   destruct (g2 <=? c) eqn:Hg2; [|lia]. cbn [negb].
-  assert (Hg1 : g1 <= c) by lia.
   assert (Hs2 : sending_ok s2) by (unfold sending_ok; rewrite Hc2; exact Hs).
-  (* the state after the tail gap fill, in both cases *)
   assert (Htail : exists W' s3,
             (if g1 <? c then send_msg (gap_fill_msg g1 c) s2 else Ok s2) = Ok s3
             /\ same_but s2 s3 W' /\ chain J f c g1 c W').
   { destruct (g1 <? c) eqn:Hlt.
-    - eexists [_], _. split; [apply send_gap_fill; [exact Hs2|apply has_key_false; exact Hrows2]|].
-      split; [apply same_but_sent|].
+    - eexists [_], _. split; [apply send_gap_fill; exact Hs2|]. split; [apply same_but_sent|].
       apply chain_gap with (h := c); [lia| |left; reflexivity|apply gap_is_gap|constructor].
       intros n Hn. destruct (Z.ltb_spec n (Z.max g1 g2)); [apply Hsk; lia|].
       intros r Hr Hseq. specialize (Hall _ Hr). lia.
     - exists [], s2. split; [reflexivity|]. split; [apply same_but_refl|].
       replace g1 with c by lia. constructor. }
-  destruct Htail as (W' & s3 & E3 & (Hc3 & Hn3 & Hr3 & Hw3 & Hst3) & Hch3). rewrite E3.
+  destruct Htail as (W' & s3 & E3 & (Hc3 & Hn3 & Hso3 & Hr3 & Hw3 & Hst3) & Hch3). rewrite E3.
   pose proof (chain_app _ _ _ _ _ _ _ _ Hch Hch3) as Hchain.
-  unfold set_seq_num_out. destruct (c <=? 0) eqn:Hc0; [lia|].
-  assert (Hrows3 : rows s3 = filter (fun r => r_seq r <? b) J ++ (W ++ W')).
-  { rewrite Hr3, Hr2. cbn [rows s1]. rewrite app_assoc. reflexivity. }
-  assert (Hkeep : filter (fun r => r_seq r <? c) (rows s3) = rows s3).
-  { apply filter_all. apply forallb_forall. intros r Hr. rewrite Hrows3 in Hr.
-    apply in_app_or in Hr as [Hr|Hr].
-    - apply filter_In in Hr as [_ Hr]. lia.
-    - pose proof (chain_seqs _ _ _ _ _ _ Hchain _ Hr). lia. }
-  rewrite Hkeep.
   exists (W ++ W'). eexists. split; [reflexivity|].
   assert (Hcs : cstate s3 = cstate s) by (rewrite Hc3, Hc2; reflexivity).
-  cbn [cstate]. rewrite Hcs.
-  destruct (cstate s =? ST_AWAITING) eqn:Haw; cbn [wire nout sout rows cstate state_set].
-  - rewrite Hw3, Hw2, Hrows3. cbn [wire s1]. rewrite app_assoc. auto 10.
-  - rewrite Hw3, Hw2, Hrows3. cbn [wire s1]. rewrite app_assoc. auto 10.
+  rewrite Hcs.
+  destruct (cstate s =? ST_AWAITING) eqn:Haw; cbn [wire nout sout rows cstate state_set];
+    rewrite Hw3, Hw2, Hn3, Hn2, Hso3, Hso2, Hr3, Hr2, app_assoc; auto 10.
 Qed.
 
-Lemma resend_partial f s bs es b e0 :
-  py_int bs = Some b -> py_int es = Some e0 ->
+Lemma resend_partial f s bs es b0 b e0 :
+  py_int bs = Some b0 -> clamp1 b0 = b -> py_int es = Some e0 ->
   (cstate s = ST_ACTIVE \/ cstate s = ST_AWAITING) -> journal_ok s ->
   1 <= b <= nout s -> fits_int64 e0 = true -> (e0 = 0 \/ nout s - 1 <= e0 \/ b = nout s) ->
   rows_ok f b (recover b (if e0 =? 0 then sys_maxsize else e0) (rows s)) ->
   resend_correct f s (Some bs) (Some es).
 Proof.
-  intros Hpb Hpe Hst Hj Hb He0 Hcov Hok.
-  unfold resend_correct, process_resend, requested_range. rewrite Hpb, Hpe.
+  intros Hpb Hcl Hpe Hst Hj Hb He0 Hcov Hok.
+  unfold resend_correct, process_resend, requested_range. rewrite Hpb, Hpe. cbv zeta. rewrite Hcl.
   set (sa := if cstate s =? ST_AWAITING then s else state_set ST_HANDLING s).
   assert (Hsa : sending_ok sa /\ rows sa = rows s /\ nout sa = nout s /\ sout sa = sout s /\ wire sa = wire s
                 /\ (if cstate sa =? ST_AWAITING then cstate sa else ST_ACTIVE) = cstate s).
   { unfold sa. destruct Hst as [H|H]; rewrite H; cbn; unfold sending_ok; cbn; rewrite ?H; auto 10. }
   destruct Hsa as (Hs & Er & En & Eso & Ew & Ec).
-  assert (Hja : journal_ok sa) by (unfold journal_ok; rewrite Er, En, Eso; exact Hj).
+  assert (Hja : journal_ok sa) by (unfold journal_ok; rewrite Er, En; exact Hj).
   rewrite <- Er in Hok. rewrite <- En in Hcov, Hb.
   destruct (body_ok f sa b e0 Hs Hja Hb He0 Hcov Hok) as (W & s' & E & Hw & Hch & Hn & Hso & Hr & Hc).
-  rewrite E. cbn [fst]. rewrite Er, En, ?Ew in *. clear E.
-  destruct Hj as (HJ & Hsout & Hmax). rewrite Forall_forall in HJ.
-  pose proof (chain_seqs _ _ _ _ _ _ Hch) as Hseqs.
-  exists W. split; [exact Hw|]. split; [|rewrite Hn, Hso, Hc, Ec; auto].
+  rewrite E. cbn [fst]. rewrite Er, En, ?Ew, ?Eso in *. clear E.
+  exists W. split; [exact Hw|]. split; [|rewrite Hc, Ec; auto].
   destruct ((1 <=? b) && ((e0 =? 0) || (b <=? e0))) eqn:Hvalid.
   - assert (Hhi : Z.max b (if e0 =? 0 then nout s else Z.min (e0 + 1) (nout s)) = nout s).
     { destruct (e0 =? 0) eqn:E0; lia. }
-    rewrite Hhi. split; [exact Hch|].
-    intros r Hout. rewrite Hr, in_app_iff, filter_In. split.
-    + intros [[Hin _]|Hin]; [exact Hin|]. specialize (Hseqs _ Hin). lia.
-    + intros Hin. left. split; [exact Hin|]. specialize (HJ _ Hin). lia.
-  - assert (Hbc : b = nout s) by lia. subst b.
-    apply chain_empty in Hch. subst W. split; [reflexivity|].
-    intros r. rewrite Hr, app_nil_r, filter_In. split; [tauto|].
-    intros Hin. split; [exact Hin|]. specialize (HJ _ Hin). lia.
+    rewrite Hhi. exact Hch.
+  - assert (Hbc : b = nout s) by lia. rewrite Hbc in Hch. exact (chain_empty _ _ _ _ _ Hch).
 Qed.
 
 (* ------------------------------------------------------------------ known-finding class predicates
@@ -519,17 +458,17 @@ Definition k_unparsable (bs es : option str) : bool :=
   match bs, es with
   | Some bs, Some es =>
       match py_int bs, py_int es with
-      | Some b, Some e0 => negb (fits_int64 b && fits_int64 (eff_end e0))
+      | Some b, Some e0 => negb (fits_int64 (clamp1 b) && fits_int64 (eff_end e0))
       | _, _ => true
       end
   | _, _ => true
   end.
-Definition k_begin_nonpositive (b : Z) : bool := b <=? 0.
 Definition k_begin_beyond (s : st) (b : Z) : bool := nout s <? b.
 (* EndSeqNo bounded below the last sent number *)
 Definition k_bounded_end (s : st) (b e0 : Z) : bool := negb (e0 =? 0) && (e0 <? nout s - 1) && (b <? nout s).
-(* a replayed message in range is the PossDup copy left by an earlier resend *)
-Definition k_leftover_copy (f : row -> bool) (s : st) (b e0 : Z) : bool :=
+(* a replayed message in range was journaled with tag 43 or 122 in its body (an application that
+   sets PossDupFlag=N or OrigSendingTime itself; the handler no longer leaves copies behind) *)
+Definition k_row_carries_possdup_tags (f : row -> bool) (s : st) (b e0 : Z) : bool :=
   existsb (fun r => in_req_range b (eff_end e0) r && replayable f r && negb (clean r)) (rows s).
 (* a replayed message in range whose predecessor number (still in range) is missing from the journal *)
 Definition k_hole_before_replayed (f : row -> bool) (s : st) (b e0 : Z) : bool :=
@@ -609,7 +548,7 @@ Qed.
 (* outside the two journal classes the recovered rows are what the loop handles correctly *)
 Lemma classes_rows_ok f s b e0 :
   NoDup (map r_seq (rows s)) ->
-  k_leftover_copy f s b e0 = false -> k_hole_before_replayed f s b e0 = false ->
+  k_row_carries_possdup_tags f s b e0 = false -> k_hole_before_replayed f s b e0 = false ->
   rows_ok f b (recover b (eff_end e0) (rows s)).
 Proof.
   intros Hnd Hl Hh. apply asc_rows_ok; [apply recover_asc; exact Hnd| |].
@@ -626,22 +565,56 @@ Proof.
 Qed.
 
 (* the partial theorem with exactly the negated class predicates as hypotheses *)
-Lemma resend_partial_classes f s bs es b e0 :
-  py_int bs = Some b -> py_int es = Some e0 ->
+Lemma resend_partial_classes f s bs es b0 e0 :
+  py_int bs = Some b0 -> py_int es = Some e0 ->
+  let b := clamp1 b0 in
   (cstate s = ST_ACTIVE \/ cstate s = ST_AWAITING) ->
   journal_ok s -> NoDup (map r_seq (rows s)) ->
   k_unparsable (Some bs) (Some es) = false ->
-  k_begin_nonpositive b = false -> k_begin_beyond s b = false -> k_bounded_end s b e0 = false ->
-  k_leftover_copy f s b e0 = false -> k_hole_before_replayed f s b e0 = false ->
+  k_begin_beyond s b = false -> k_bounded_end s b e0 = false ->
+  k_row_carries_possdup_tags f s b e0 = false -> k_hole_before_replayed f s b e0 = false ->
   resend_correct f s (Some bs) (Some es).
 Proof.
-  intros Hpb Hpe Hst Hj Hnd Hu Hk1 Hk2 Hk3 Hk4 Hk5.
+  intros Hpb Hpe b Hst Hj Hnd Hu Hk2 Hk3 Hk4 Hk5.
   unfold k_unparsable in Hu. rewrite Hpb, Hpe in Hu. apply negb_false_iff, andb_true_iff in Hu as [Hfb Hfe].
-  unfold k_begin_nonpositive in Hk1. unfold k_begin_beyond in Hk2. unfold k_bounded_end in Hk3.
-  apply (resend_partial f s bs es b e0 Hpb Hpe Hst Hj); try lia.
+  unfold k_begin_beyond in Hk2. unfold k_bounded_end in Hk3.
+  assert (H1 : 1 <= b) by (unfold b, clamp1; destruct (b0 <? 1) eqn:E; lia).
+  apply (resend_partial f s bs es b0 b e0 Hpb eq_refl Hpe Hst Hj); try lia.
   - unfold eff_end in Hfe. destruct (e0 =? 0) eqn:E; [|exact Hfe].
     replace e0 with 0 by lia. reflexivity.
   - exact (classes_rows_ok f s b e0 Hnd Hk4 Hk5).
+Qed.
+
+(* answering a request leaves a state in which every hypothesis above still holds: a second (third, ...)
+   request over the same or any other range is answered correctly too *)
+Lemma resend_repeatable f s bs es b0 e0 f2 bs2 es2 c0 e2 :
+  py_int bs = Some b0 -> py_int es = Some e0 ->
+  let b := clamp1 b0 in
+  (cstate s = ST_ACTIVE \/ cstate s = ST_AWAITING) ->
+  journal_ok s -> NoDup (map r_seq (rows s)) ->
+  k_unparsable (Some bs) (Some es) = false ->
+  k_begin_beyond s b = false -> k_bounded_end s b e0 = false ->
+  k_row_carries_possdup_tags f s b e0 = false -> k_hole_before_replayed f s b e0 = false ->
+  let s1 := fst (process_resend f (Some bs) (Some es) s) in
+  py_int bs2 = Some c0 -> py_int es2 = Some e2 ->
+  let b2 := clamp1 c0 in
+  k_unparsable (Some bs2) (Some es2) = false ->
+  k_begin_beyond s b2 = false -> k_bounded_end s b2 e2 = false ->
+  k_row_carries_possdup_tags f2 s b2 e2 = false -> k_hole_before_replayed f2 s b2 e2 = false ->
+  resend_correct f2 s1 (Some bs2) (Some es2).
+Proof.
+  intros Hpb Hpe b Hst Hj Hnd Hu Hk2 Hk3 Hk4 Hk5 s1 Hpb2 Hpe2 b2 Hu2 Hq2 Hq3 Hq4 Hq5.
+  destruct (resend_partial_classes f s bs es b0 e0 Hpb Hpe Hst Hj Hnd Hu Hk2 Hk3 Hk4 Hk5)
+    as (W & _ & _ & Hr & Hn & _ & Hc).
+  fold s1 in Hr, Hn, Hc.
+  apply (resend_partial_classes f2 s1 bs2 es2 c0 e2 Hpb2 Hpe2); try assumption.
+  - rewrite Hc. exact Hst.
+  - unfold journal_ok. rewrite Hr, Hn. exact Hj.
+  - rewrite Hr. exact Hnd.
+  - unfold k_begin_beyond in *. rewrite Hn. exact Hq2.
+  - unfold k_bounded_end in *. rewrite Hn. exact Hq3.
+  - unfold k_row_carries_possdup_tags in *. rewrite Hr. exact Hq4.
+  - unfold k_hole_before_replayed in *. rewrite Hr. exact Hq5.
 Qed.
 
 (* ------------------------------------------------------------------ pristine journals *)
@@ -654,11 +627,11 @@ Fixpoint contig (k : Z) (l : list row) : Prop :=
   end.
 
 (* a journal of original sends: numbers 1..n contiguous (a suffix below next_num_out may be
-   missing), no PossDup copies, rows as the encoder writes them, stored counter in step *)
+   missing), no PossDup tags in a body, rows as the encoder writes them *)
 Definition pristine (s : st) : Prop :=
   contig 1 (rows s)
   /\ Forall (fun r => clean r = true /\ codec_row r = true) (rows s)
-  /\ Z.of_nat (length (rows s)) < nout s /\ sout s = nout s - 1 /\ nout s <= INT64_MAX.
+  /\ Z.of_nat (length (rows s)) < nout s /\ nout s <= INT64_MAX.
 
 Lemma contig_seqs : forall l k, contig k l -> forall r, In r l -> k <= r_seq r < k + Z.of_nat (length l).
 Proof.
@@ -686,30 +659,31 @@ Proof.
   rewrite (H _ Hin) in Hp. discriminate.
 Qed.
 
-Lemma pristine_partial f s bs es b :
-  py_int bs = Some b -> py_int es = Some 0 ->
-  (cstate s = ST_ACTIVE \/ cstate s = ST_AWAITING) -> pristine s -> 1 <= b <= nout s ->
+Lemma pristine_partial f s bs es b0 :
+  py_int bs = Some b0 -> py_int es = Some 0 ->
+  (cstate s = ST_ACTIVE \/ cstate s = ST_AWAITING) -> pristine s -> b0 <= nout s ->
   resend_correct f s (Some bs) (Some es).
 Proof.
-  intros Hpb Hpe Hst (Hc & Hcl & Hlen & Hso & Hmax) Hb. rewrite Forall_forall in Hcl.
+  intros Hpb Hpe Hst (Hc & Hcl & Hlen & Hmax) Hb0. rewrite Forall_forall in Hcl.
   pose proof (contig_seqs _ _ Hc) as Hseqs.
-  apply (resend_partial_classes f s bs es b 0 Hpb Hpe Hst).
-  - split; [|split; assumption]. apply Forall_forall. intros r Hr.
+  assert (Hb : 1 <= clamp1 b0 <= nout s).
+  { unfold clamp1. destruct (b0 <? 1) eqn:E; [|lia]. pose proof (Zle_0_nat (length (rows s))). lia. }
+  apply (resend_partial_classes f s bs es b0 0 Hpb Hpe Hst).
+  - split; [|assumption]. apply Forall_forall. intros r Hr.
     specialize (Hseqs _ Hr). destruct (Hcl _ Hr). split; [lia|assumption].
   - exact (contig_nodup _ _ Hc).
   - unfold k_unparsable. rewrite Hpb, Hpe.
-    replace (fits_int64 b) with true by (unfold fits_int64, INT64_MIN, INT64_MAX in *; lia). reflexivity.
-  - unfold k_begin_nonpositive. lia.
+    replace (fits_int64 (clamp1 b0)) with true by (unfold fits_int64, INT64_MIN, INT64_MAX in *; lia). reflexivity.
   - unfold k_begin_beyond. lia.
   - reflexivity.
   - apply existsb_all_false. intros r Hr. destruct (Hcl _ Hr) as [-> _]. cbn. apply andb_false_r.
   - apply existsb_all_false. intros r Hr. specialize (Hseqs _ Hr).
-    destruct (b <? r_seq r) eqn:E; [|rewrite andb_false_r; reflexivity].
+    destruct (clamp1 b0 <? r_seq r) eqn:E; [|rewrite andb_false_r; reflexivity].
     rewrite (contig_has _ _ Hc) by lia. apply andb_false_r.
 Qed.
 
-(* frames written by send_msg are rows as the encoder writes them: the hypothesis codec_row of
-   journal_ok / pristine is an invariant of journals written by the model's send_msg *)
+(* rows written by send_msg are rows as the encoder writes them (the hypothesis codec_row of
+   journal_ok / pristine is an invariant), and a frame with PossDupFlag=Y never reaches the journal *)
 Lemma forallb_filter {A} (p : A -> bool) l : forallb p (filter p l) = true.
 Proof. induction l as [|x l IH]; cbn; auto. destruct (p x) eqn:E; cbn; rewrite ?E; auto. Qed.
 
@@ -720,15 +694,109 @@ Proof.
 Qed.
 
 Lemma send_msg_frame_codec_row m s s' :
-  send_msg m s = Ok s' -> exists fr, rows s' = rows s ++ [fr] /\ codec_row fr = true.
+  send_msg m s = Ok s' ->
+  rows s' = rows s \/ exists fr, rows s' = rows s ++ [fr] /\ codec_row fr = true.
 Proof.
   unfold send_msg. destruct (send_gates m s) as [s1|] eqn:Hg; [|discriminate].
   apply gates_rows in Hg.
   destruct (str_eqb (m_type m) MT_TESTREQUEST && negb (testreq_pending s1)); [discriminate|].
   destruct (select_seq m s1) as [[n no]|]; [|discriminate].
-  unfold persist. cbn [r_seq rows]. destruct (has_key n (rows s1)) eqn:Hk; [discriminate|].
-  intros [= <-]. cbn [rows]. rewrite Hg. eexists. split; [reflexivity|].
-  unfold codec_row. cbn [r_body]. apply forallb_filter.
+  destruct (is_resend_reply m).
+  - intros [= <-]. left. exact Hg.
+  - unfold persist. cbn [r_seq rows]. destruct (has_key n (rows s1)) eqn:Hk; [discriminate|].
+    intros [= <-]. cbn [rows]. rewrite Hg. right. eexists. split; [reflexivity|].
+    unfold codec_row. cbn [r_body]. apply forallb_filter.
+Qed.
+
+(* ------------------------------------------------------------------ what holds for EVERY request:
+   no side effect on the journal or the counters, and which exceptions can leave the handler *)
+
+Definition untouched (s s' : st) : Prop :=
+  cstate s' = cstate s /\ rows s' = rows s /\ nout s' = nout s /\ sout s' = sout s.
+
+Lemma loop_general f : forall rs gfb gfe s, sending_ok s ->
+  match replay_loop f rs gfb gfe s with
+  | LOk g1 g2 s' => untouched s s'
+  | LExc e s' => e = EDuplicatedTag /\ untouched s s'
+  end.
+Proof.
+  induction rs as [|r rest IH]; intros gfb gfe s Hs; cbn [replay_loop]; [unfold untouched; auto|].
+  destruct (is_sess_type (r_type r)) eqn:Hst; [apply IH; exact Hs|].
+  set (s0 := note_call (r_seq r) s).
+  assert (Hs0 : sending_ok s0) by exact Hs.
+  destruct (f r); cbn [negb]; [|exact (IH gfb (r_seq r + 1) s0 Hs0)].
+  assert (Hstep : forall s1, sending_ok s1 -> untouched s s1 ->
+            match (match mk_replay r with
+                   | Some m => match send_msg m s1 with
+                               | Ok s2 => replay_loop f rest (r_seq r + 1) gfe s2
+                               | Exc e s' => LExc e s'
+                               end
+                   | None => LExc EDuplicatedTag s1
+                   end) with
+            | LOk g1 g2 s' => untouched s s'
+            | LExc e s' => e = EDuplicatedTag /\ untouched s s'
+            end).
+  { intros s1 Hs1 Hu. destruct (mk_replay r) as [m|] eqn:Hm; [|auto].
+    rewrite (send_replay_gen r m s1 Hs1 Hst Hm).
+    match goal with |- context [replay_loop f rest ?a ?b ?s2] =>
+      assert (Hs2 : sending_ok s2) by exact Hs1; specialize (IH a b s2 Hs2);
+      destruct (replay_loop f rest a b s2) end; unfold untouched in *; cbn [cstate rows nout sout sent] in IH; intuition congruence. }
+  destruct (gfb <? gfe).
+  - rewrite (send_gap_fill gfb gfe s0 Hs0). apply Hstep; [exact Hs|unfold untouched; auto].
+  - apply Hstep; [exact Hs|unfold untouched; auto].
+Qed.
+
+Definition allowed_exc (x : option exc) : Prop :=
+  match x with
+  | Some EDuplicateSeqNo | Some EConnection | Some EEncoding => False
+  | _ => True
+  end.
+
+(* For every state, journal, request and filter - no hypothesis at all: the handler never changes the
+   outbound journal, next_num_out or the stored counter; the only exceptions that can leave it are
+   AssertionError, DuplicatedTagError, TagNotFoundError, ValueError, OverflowError; without an
+   exception the state ends ACTIVE (or stays RESENDREQ_AWAITING), with one it is left in
+   RESENDREQ_HANDLING (or stays RESENDREQ_AWAITING). *)
+Lemma resend_general f s bs es :
+  let (s', x) := process_resend f bs es s in
+  rows s' = rows s /\ nout s' = nout s /\ sout s' = sout s
+  /\ allowed_exc x
+  /\ cstate s' = (if cstate s =? ST_AWAITING then ST_AWAITING
+                  else match x with None => ST_ACTIVE | Some _ => ST_HANDLING end).
+Proof.
+  unfold process_resend.
+  set (sa := if cstate s =? ST_AWAITING then s else state_set ST_HANDLING s).
+  assert (Hsa : sending_ok sa /\ rows sa = rows s /\ nout sa = nout s /\ sout sa = sout s
+                /\ cstate sa = (if cstate s =? ST_AWAITING then ST_AWAITING else ST_HANDLING)
+                /\ (cstate sa =? ST_AWAITING) = (cstate s =? ST_AWAITING)).
+  { unfold sa, sending_ok. destruct (cstate s =? ST_AWAITING) eqn:E; cbn; [|auto 10].
+    assert (cstate s = ST_AWAITING) by lia. rewrite E. auto 10. }
+  destruct Hsa as (Hs & Er & En & Eso & Ec & Eaw). rewrite <- Er, <- En, <- Eso.
+  clearbody sa.
+  destruct bs as [bs|]; [|repeat split; auto; exact I].
+  destruct (py_int bs) as [b|]; [|repeat split; auto; exact I].
+  destruct es as [es|]; [|repeat split; auto; exact I].
+  destruct (py_int es) as [e0|]; [|repeat split; auto; exact I].
+  generalize (clamp1 b). clear b. intros b.
+  unfold resend_body. set (e := if e0 =? 0 then sys_maxsize else e0).
+  destruct (fits_int64 b && fits_int64 e); cbn [negb]; [|repeat split; auto; exact I].
+  pose proof (loop_general f (recover b e (rows sa)) b b sa Hs) as Hloop.
+  destruct (replay_loop f (recover b e (rows sa)) b b sa) as [g1 g2 s2|x s2].
+  2:{ destruct Hloop as [-> (Hc & Hr & Hn & Hso)]. repeat split; auto; try exact I; rewrite Hc; exact Ec. }
+  destruct Hloop as (Hc2 & Hr2 & Hn2 & Hso2).
+  destruct (g2 <=? nout sa); cbn [negb].
+  2:{ repeat split; auto; try exact I; rewrite Hc2; exact Ec. }
+  assert (Hs2 : sending_ok s2) by (unfold sending_ok; rewrite Hc2; exact Hs).
+  assert (Htail : exists s3, (if g1 <? nout sa then send_msg (gap_fill_msg g1 (nout sa)) s2 else Ok s2) = Ok s3
+                             /\ untouched s2 s3).
+  { destruct (g1 <? nout sa).
+    - eexists. split; [apply send_gap_fill; exact Hs2|unfold untouched; auto].
+    - exists s2. unfold untouched; auto. }
+  destruct Htail as (s3 & -> & (Hc3 & Hr3 & Hn3 & Hso3)).
+  assert (Eaw3 : (cstate s3 =? ST_AWAITING) = (cstate s =? ST_AWAITING)) by (rewrite Hc3, Hc2; exact Eaw).
+  rewrite Eaw3. destruct (cstate s =? ST_AWAITING) eqn:E; cbn [rows nout sout cstate state_set];
+    rewrite ?Hr3, ?Hn3, ?Hso3, ?Hr2, ?Hn2, ?Hso2; repeat split; auto.
+  rewrite Hc3, Hc2, Ec. reflexivity.
 Qed.
 
 (* ------------------------------------------------------------------ witnesses of the known findings *)
@@ -740,80 +808,107 @@ Definition w_state (st0 nxt : Z) (rs : list row) : st := mkSt st0 false false nx
 Definition w_all (r : row) : bool := true.
 Definition dec (z : Z) : option str := Some (z_to_dec z).
 
-(* the six class predicates of a request, as a tuple *)
-Definition classes_of (f : row -> bool) (s : st) (bs es : option str) (b e0 : Z) :=
-  (k_unparsable bs es, k_begin_nonpositive b, k_begin_beyond s b, k_bounded_end s b e0,
-   k_leftover_copy f s b e0, k_hole_before_replayed f s b e0).
+(* the five class predicates of a request (b0 = int of tag 7, clamped like the code does), as a tuple *)
+Definition classes_of (f : row -> bool) (s : st) (bs es : option str) (b0 e0 : Z) :=
+  let b := clamp1 b0 in
+  (k_unparsable bs es, k_begin_beyond s b, k_bounded_end s b e0,
+   k_row_carries_possdup_tags f s b e0, k_hole_before_replayed f s b e0).
 
-(* D12a: [Logon, D2, D3, D4], next 5, ResendRequest(2, 2): D2 is retransmitted, then GapFill(3 -> 5):
-   numbers 3 and 4 were not asked for, and row 4 is gone from the journal *)
+Lemma chain_cons_inv J f lim a c fr rest : chain J f lim a c (fr :: rest) ->
+  r_seq fr = a /\ ((exists r, is_copy_of r fr /\ chain J f lim (a + 1) c rest)
+                   \/ (exists h, is_gap_fill fr a h /\ chain J f lim h c rest)).
+Proof.
+  inversion 1; subst.
+  - match goal with H : is_copy_of _ _ |- _ => pose proof H as (E & _) end. split; [lia|]. left. eauto.
+  - match goal with H : is_gap_fill _ _ _ |- _ => pose proof H as (E & _) end. split; [lia|]. right. eauto.
+Qed.
+
+(* bounded EndSeqNo: [Logon, D2, D3, D4], next 5, ResendRequest(2, 2): D2 is retransmitted, then
+   GapFill(3 -> 5) - numbers 3 and 4 were not asked for (the journal is no longer damaged) *)
 Definition w_bounded := w_state ST_ACTIVE 5 [w_logon; w_app 2; w_app 3; w_app 4].
 Lemma bounded_end_refuted :
   pristine w_bounded
-  /\ classes_of w_all w_bounded (dec 2) (dec 2) 2 2 = (false, false, false, true, false, false)
-  /\ ~ resend_correct w_all w_bounded (dec 2) (dec 2).
+  /\ classes_of w_all w_bounded (dec 2) (dec 2) 2 2 = (false, false, true, false, false)
+  /\ ~ resend_correct w_all w_bounded (dec 2) (dec 2)
+  /\ (let (s', x) := process_resend w_all (dec 2) (dec 2) w_bounded in
+      x = None /\ map r_seq (wire s') = [2; 3]
+      /\ map (fun r => get_tag T_NewSeqNo (r_body r)) (wire s') = [None; Some [53%N]]).
 Proof.
-  split; [|split; [vm_compute; reflexivity|]].
-  - unfold pristine. repeat split; try (vm_compute; congruence). repeat constructor.
-  - intros (W & _ & Hr & _).
+  split. { unfold pristine. repeat split; try (vm_compute; congruence). repeat constructor. }
+  split; [vm_compute; reflexivity|]. split.
+  - intros (W & Hw & Hr & _).
     assert (E : requested_range w_bounded (dec 2) (dec 2) = Some (2, 3)) by (vm_compute; reflexivity).
-    rewrite E in Hr. destruct Hr as [_ Hout].
-    destruct (Hout (w_app 4) ltac:(right; vm_compute; congruence)) as [_ Hback].
-    assert (Hin : In (w_app 4) (rows w_bounded)) by (cbn; auto).
-    specialize (Hback Hin). vm_compute in Hback.
-    repeat (destruct Hback as [Hback|Hback]; [discriminate|]). exact Hback.
+    rewrite E in Hr. vm_compute in Hw. subst W.
+    apply chain_cons_inv in Hr as (_ & [(r & _ & Hch)|(h & (_ & Ht & _) & _)]).
+    + apply chain_empty in Hch. discriminate.
+    + vm_compute in Ht. discriminate.
+  - vm_compute. repeat split; reflexivity.
 Qed.
 
-(* D12b: the journal left by a first, complete ResendRequest(2, 0) over [Logon, D2, D3] holds the
-   PossDup copies of 2 and 3; the same request again aborts on the first copy (DuplicatedTagError):
-   nothing is sent, next_num_out stays rewound to 2, rows 2 and 3 are gone, the state is stuck *)
+(* a second request over an already replayed range is answered like the first (positive now) *)
 Definition w_first := w_state ST_ACTIVE 4 [w_logon; w_app 2; w_app 3].
 Definition w_second := fst (process_resend w_all (dec 2) (dec 0) w_first).
-Lemma second_request_refuted :
+Lemma second_request_ok :
   pristine w_first /\ resend_correct w_all w_first (dec 2) (dec 0)
-  /\ journal_ok w_second /\ cstate w_second = ST_ACTIVE
-  /\ classes_of w_all w_second (dec 2) (dec 0) 2 0 = (false, false, false, false, true, false)
-  /\ ~ resend_correct w_all w_second (dec 2) (dec 0)
-  /\ (let (s', x) := process_resend w_all (dec 2) (dec 0) w_second in
-      x = Some EDuplicatedTag /\ wire s' = wire w_second /\ nout s' = 2 /\ nout w_second = 4
-      /\ map r_seq (rows s') = [1] /\ cstate s' = ST_HANDLING).
+  /\ rows w_second = rows w_first /\ nout w_second = 4
+  /\ resend_correct w_all w_second (dec 2) (dec 0)
+  /\ map r_seq (wire (fst (process_resend w_all (dec 2) (dec 0) w_second))) = [2; 3; 2; 3].
 Proof.
   assert (Hp : pristine w_first).
   { unfold pristine. repeat split; try (vm_compute; congruence). repeat constructor. }
+  assert (Hp2 : pristine w_second).
+  { unfold pristine. repeat split; try (vm_compute; congruence). repeat constructor. }
   split; [exact Hp|]. split.
-  { apply (pristine_partial w_all w_first _ _ 2); try reflexivity; [left; reflexivity|exact Hp|vm_compute; split; congruence]. }
-  split. { unfold journal_ok. repeat split; try (vm_compute; congruence). repeat constructor; vm_compute; congruence. }
-  split; [reflexivity|]. split; [vm_compute; reflexivity|]. split.
-  - intros (W & _ & _ & Hn & _). vm_compute in Hn. discriminate.
-  - vm_compute. repeat split; reflexivity.
+  { apply (pristine_partial w_all w_first _ _ 2); try reflexivity; [left; reflexivity|exact Hp|vm_compute; congruence]. }
+  split; [reflexivity|]. split; [reflexivity|]. split; [|vm_compute; reflexivity].
+  apply (pristine_partial w_all w_second _ _ 2); try reflexivity; [left; reflexivity|exact Hp2|vm_compute; congruence].
 Qed.
 
-(* D12c: BeginSeqNo beyond next_num_out: counter left advanced, state stuck *)
+(* BeginSeqNo beyond next_num_out: AssertionError; the counters are no longer moved but the state is stuck *)
 Definition w_small := w_state ST_ACTIVE 3 [w_logon; w_app 2].
 Lemma begin_beyond_refuted :
   pristine w_small
-  /\ classes_of w_all w_small (dec 5) (dec 0) 5 0 = (false, false, true, false, false, false)
+  /\ classes_of w_all w_small (dec 5) (dec 0) 5 0 = (false, true, false, false, false)
   /\ ~ resend_correct w_all w_small (dec 5) (dec 0)
   /\ (let (s', x) := process_resend w_all (dec 5) (dec 0) w_small in
-      x = Some EAssertion /\ nout s' = 5 /\ sout s' = 4 /\ cstate s' = ST_HANDLING).
+      x = Some EAssertion /\ nout s' = 3 /\ sout s' = 2 /\ wire s' = [] /\ cstate s' = ST_HANDLING).
 Proof.
   split. { unfold pristine. repeat split; try (vm_compute; congruence). repeat constructor. }
   split; [vm_compute; reflexivity|]. split.
-  - intros (W & _ & _ & Hn & _). vm_compute in Hn. discriminate.
+  - intros (W & _ & _ & _ & _ & _ & Hc). vm_compute in Hc. discriminate.
   - vm_compute. repeat split; reflexivity.
 Qed.
 
-(* D12d: BeginSeqNo <= 0: nothing is sent or changed, but the state is stuck in RESENDREQ_HANDLING *)
-Lemma begin_nonpositive_refuted :
-  pristine w_small
-  /\ classes_of w_all w_small (dec 0) (dec 0) 0 0 = (false, true, false, false, false, false)
-  /\ ~ resend_correct w_all w_small (dec 0) (dec 0)
-  /\ (let (s', x) := process_resend w_all (dec 0) (dec 0) w_small in
-      x = Some EAssertion /\ nout s' = 3 /\ rows s' = rows w_small /\ cstate s' = ST_HANDLING).
+(* BeginSeqNo <= 0 is answered exactly like BeginSeqNo = 1 (same frames, same state afterwards, and
+   it is the same request as far as the property is concerned) *)
+Lemma begin_nonpositive_as_one f s bs es b :
+  py_int bs = Some b -> b < 1 ->
+  process_resend f (Some bs) es s = process_resend f (dec 1) es s
+  /\ requested_range s (Some bs) es = requested_range s (dec 1) es
+  /\ (resend_correct f s (Some bs) es <-> resend_correct f s (dec 1) es).
 Proof.
-  split. { unfold pristine. repeat split; try (vm_compute; congruence). repeat constructor. }
-  split; [vm_compute; reflexivity|]. split.
-  - intros (W & _ & _ & _ & _ & Hc). vm_compute in Hc. discriminate.
+  intros Hpb Hb.
+  assert (E1 : process_resend f (Some bs) es s = process_resend f (dec 1) es s).
+  { unfold process_resend, dec. rewrite Hpb. change (py_int (z_to_dec 1)) with (Some 1).
+    replace (clamp1 b) with (clamp1 1); [reflexivity|]. unfold clamp1. destruct (b <? 1) eqn:E; [reflexivity|lia]. }
+  assert (E2 : requested_range s (Some bs) es = requested_range s (dec 1) es).
+  { unfold requested_range, dec. rewrite Hpb. change (py_int (z_to_dec 1)) with (Some 1).
+    replace (clamp1 b) with (clamp1 1); [reflexivity|]. unfold clamp1. destruct (b <? 1) eqn:E; [reflexivity|lia]. }
+  split; [exact E1|]. split; [exact E2|]. unfold resend_correct. rewrite E1, E2. tauto.
+Qed.
+
+(* concrete: ResendRequest(0, 0) and (-3, 0) over [Logon, D2] -> GapFill(1 -> 2), D2; state restored *)
+Lemma begin_nonpositive_example :
+  resend_correct w_all w_small (dec 0) (dec 0) /\ resend_correct w_all w_small (dec (-3)) (dec 0)
+  /\ (let (s', x) := process_resend w_all (dec (-3)) (dec 0) w_small in
+      x = None /\ map r_seq (wire s') = [1; 2] /\ map r_type (wire s') = [MT_SEQUENCERESET; [68%N]]
+      /\ cstate s' = ST_ACTIVE /\ nout s' = 3).
+Proof.
+  assert (Hp : pristine w_small).
+  { unfold pristine. repeat split; try (vm_compute; congruence). repeat constructor. }
+  split; [|split].
+  - apply (pristine_partial w_all w_small _ _ 0); try reflexivity; [left; reflexivity|exact Hp|vm_compute; congruence].
+  - apply (pristine_partial w_all w_small _ _ (-3)); try reflexivity; [left; reflexivity|exact Hp|vm_compute; congruence].
   - vm_compute. repeat split; reflexivity.
 Qed.
 
@@ -825,24 +920,15 @@ Lemma unparsable_refuted :
       x = Some EValue /\ cstate s' = ST_HANDLING).
 Proof.
   split; [vm_compute; reflexivity|]. split.
-  - intros (W & _ & _ & _ & _ & Hc). vm_compute in Hc. discriminate.
+  - intros (W & _ & _ & _ & _ & _ & Hc). vm_compute in Hc. discriminate.
   - vm_compute. repeat split; reflexivity.
 Qed.
 
 (* D21: rows {1, 2, 4, 5}, next 6, ResendRequest(2, 0): the reply is 2, 4, 5 - number 3 is never covered *)
-Lemma chain_cons_inv J f lim a c fr rest : chain J f lim a c (fr :: rest) ->
-  r_seq fr = a /\ ((exists r, is_copy_of r fr /\ chain J f lim (a + 1) c rest)
-                   \/ (exists h, is_gap_fill fr a h /\ chain J f lim h c rest)).
-Proof.
-  inversion 1; subst.
-  - match goal with H : is_copy_of _ _ |- _ => pose proof H as (E & _) end. split; [lia|]. left. eauto.
-  - match goal with H : is_gap_fill _ _ _ |- _ => pose proof H as (E & _) end. split; [lia|]. right. eauto.
-Qed.
-
 Definition w_hole := w_state ST_ACTIVE 6 [w_logon; w_app 2; w_app 4; w_app 5].
 Lemma hole_refuted :
   journal_ok w_hole /\ NoDup (map r_seq (rows w_hole))
-  /\ classes_of w_all w_hole (dec 2) (dec 0) 2 0 = (false, false, false, false, false, true)
+  /\ classes_of w_all w_hole (dec 2) (dec 0) 2 0 = (false, false, false, false, true)
   /\ ~ resend_correct w_all w_hole (dec 2) (dec 0)
   /\ (let (s', x) := process_resend w_all (dec 2) (dec 0) w_hole in
       x = None /\ map r_seq (wire s') = [2; 4; 5] /\ map r_type (wire s') = [[68%N]; [68%N]; [68%N]]).
@@ -852,32 +938,29 @@ Proof.
   split; [vm_compute; reflexivity|]. split.
   - intros (W & Hw & Hr & _).
     assert (E : requested_range w_hole (dec 2) (dec 0) = Some (2, 6)) by (vm_compute; reflexivity).
-    rewrite E in Hr. destruct Hr as [Hch _]. vm_compute in Hw. subst W.
-    apply chain_cons_inv in Hch as (_ & [(r & _ & Hch)|(h & (_ & Ht & _) & _)]).
+    rewrite E in Hr. vm_compute in Hw. subst W.
+    apply chain_cons_inv in Hr as (_ & [(r & _ & Hch)|(h & (_ & Ht & _) & _)]).
     + apply chain_cons_inv in Hch as (Hseq & _). vm_compute in Hseq. discriminate.
     + vm_compute in Ht. discriminate.
   - vm_compute. repeat split; reflexivity.
 Qed.
 
-(* In the pristine case nothing outside the range changes, but every journaled message inside the
-   range is REPLACED: application rows by their PossDup copies (new SendingTime, tags 43/122 added),
-   each run of session-level / declined rows by one GapFill row under the run's first number (the
-   other numbers of the run become holes).  The property text only protects rows outside the range,
-   so this is not a breach by itself - it is what makes the second request fail. *)
-Definition w_mixed := w_state ST_ACTIVE 6 [w_logon; w_app 2; w_hb 3; w_hb 4; w_app 5].
-Lemma in_range_rows_replaced :
-  pristine w_mixed /\ resend_correct w_all w_mixed (dec 2) (dec 0)
-  /\ (let s' := fst (process_resend w_all (dec 2) (dec 0) w_mixed) in
-      In w_logon (rows s') /\ ~ In (w_app 2) (rows s') /\ ~ In (w_hb 3) (rows s') /\ ~ In (w_hb 4) (rows s')
-      /\ map r_seq (rows s') = [1; 2; 3; 5]
-      /\ map (fun r => has_tag T_PossDupFlag (r_body r)) (rows s') = [false; true; false; true]
-      /\ map r_type (rows s') = [[65%N]; [68%N]; MT_SEQUENCERESET; [68%N]]).
+(* an application message journaled with PossDupFlag=N in its body: the retransmission aborts with
+   DuplicatedTagError (replay_msg[43] = "Y" on an existing tag); nothing sent, state stuck *)
+Definition w_tagged := w_state ST_ACTIVE 3
+  [w_logon; mkRow 2 [68%N] (time_str 2) [([49; 49]%N, [99; 50]%N); (T_PossDupFlag, V_N)]].
+Lemma possdup_tag_refuted :
+  journal_ok w_tagged /\ NoDup (map r_seq (rows w_tagged))
+  /\ classes_of w_all w_tagged (dec 2) (dec 0) 2 0 = (false, false, false, true, false)
+  /\ ~ resend_correct w_all w_tagged (dec 2) (dec 0)
+  /\ (let (s', x) := process_resend w_all (dec 2) (dec 0) w_tagged in
+      x = Some EDuplicatedTag /\ wire s' = [] /\ cstate s' = ST_HANDLING).
 Proof.
-  assert (Hp : pristine w_mixed).
-  { unfold pristine. repeat split; try (vm_compute; congruence). repeat constructor. }
-  split; [exact Hp|]. split.
-  { apply (pristine_partial w_all w_mixed _ _ 2); try reflexivity; [left; reflexivity|exact Hp|vm_compute; split; congruence]. }
-  vm_compute. repeat split; try reflexivity; try (left; reflexivity); intuition discriminate.
+  split. { unfold journal_ok. repeat split; try (vm_compute; congruence). repeat constructor; vm_compute; congruence. }
+  split. { vm_compute. repeat constructor; cbn; intuition congruence. }
+  split; [vm_compute; reflexivity|]. split.
+  - intros (W & _ & _ & _ & _ & _ & Hc). vm_compute in Hc. discriminate.
+  - vm_compute. repeat split; reflexivity.
 Qed.
 
 (* non-vacuity of the partial theorem: a journal with every kind of slot, a declining filter, a
@@ -886,56 +969,53 @@ Definition w_filter (r : row) : bool := negb (r_seq r =? 6).
 Definition w_rich := w_state ST_AWAITING 9 [w_logon; w_app 2; w_hb 3; mkRow 4 MT_SEQUENCERESET (time_str 4) [(T_NewSeqNo, [53%N])]; w_app 5; w_app 6; w_hb 7].
 Lemma nonvacuous :
   journal_ok w_rich /\ NoDup (map r_seq (rows w_rich)) /\ cstate w_rich = ST_AWAITING
-  /\ classes_of w_filter w_rich (dec 2) (dec 0) 2 0 = (false, false, false, false, false, false)
+  /\ classes_of w_filter w_rich (dec 2) (dec 0) 2 0 = (false, false, false, false, false)
   /\ (let s' := fst (process_resend w_filter (dec 2) (dec 0) w_rich) in
       map r_seq (wire s') = [2; 3; 5; 6] /\ map r_type (wire s') = [[68%N]; MT_SEQUENCERESET; [68%N]; MT_SEQUENCERESET]
       /\ map (fun r => get_tag T_NewSeqNo (r_body r)) (wire s') = [None; Some [53%N]; None; Some [57%N]]
-      /\ nout s' = 9 /\ cstate s' = ST_AWAITING).
+      /\ rows s' = rows w_rich /\ nout s' = 9 /\ cstate s' = ST_AWAITING).
 Proof.
   split. { unfold journal_ok. repeat split; try (vm_compute; congruence). repeat constructor; vm_compute; congruence. }
   split. { vm_compute. repeat constructor; cbn; intuition congruence. }
   split; [reflexivity|]. split; [vm_compute; reflexivity|]. vm_compute. repeat split; reflexivity.
 Qed.
 
-(* ------------------------------------------------------------------ which exceptions can leave the handler
-   (all journals with unique keys, all requests, all filters) *)
+(* ------------------------------------------------------------------ numbers on the wire *)
 
-Lemma send_replay_gen r m s :
-  sending_ok s -> is_sess_type (r_type r) = false -> mk_replay r = Some m ->
-  has_key (r_seq r) (rows s) = false ->
-  exists fr, r_seq fr = r_seq r /\ send_msg m s = Ok (sent fr s).
+(* s' has written the frames W after s, all numbered lo or above *)
+Definition wext (lo : Z) (s s' : st) : Prop :=
+  exists W, wire s' = wire s ++ W /\ Forall (fun fr => lo <= r_seq fr) W.
+
+Lemma wext_refl lo s : wext lo s s.
+Proof. exists []. rewrite app_nil_r. auto. Qed.
+
+Lemma wext_trans lo s s1 s2 : wext lo s s1 -> wext lo s1 s2 -> wext lo s s2.
 Proof.
-  intros Hs Ht Hm Hk. unfold mk_replay in Hm.
-  destruct (has_tag T_PossDupFlag (r_body r)) eqn:H43; [discriminate|].
-  destruct (has_tag T_OrigSendingTime (r_body r ++ [(T_PossDupFlag, V_Y)])); [discriminate|].
-  injection Hm as <-. unfold send_msg. rewrite gates_ok by assumption.
-  destruct (sess_false_types _ Ht) as [Ht1 Ht4]. cbn [m_type m_seq m_fields].
-  rewrite Ht1. cbn [andb]. unfold select_seq. cbn [m_type m_seq m_fields]. rewrite Ht4.
-  rewrite (get_tag_app_notin _ _ _ H43).
-  change (get_tag T_PossDupFlag [(T_PossDupFlag, V_Y); (T_OrigSendingTime, r_time r)]) with (Some V_Y).
-  cbv iota beta. change (str_eqb V_Y V_Y) with true. cbv iota beta.
-  unfold persist. cbn [r_seq rows]. unfold has_key in *. rewrite Hk.
-  eexists (mkRow (r_seq r) _ _ _). split; reflexivity.
+  intros (W1 & E1 & F1) (W2 & E2 & F2). exists (W1 ++ W2). rewrite E2, E1, app_assoc.
+  split; [reflexivity|]. apply Forall_app; auto.
 Qed.
 
-Lemma loop_exceptions f : forall rs p gfb gfe s,
-  asc p rs -> gfb <= p -> gfe <= p -> sending_ok s -> (forall r, In r (rows s) -> r_seq r < gfb) ->
+Lemma wext_sent lo fr s : lo <= r_seq fr -> wext lo s (sent fr s).
+Proof. intros H. exists [fr]. split; [reflexivity|]. constructor; auto. Qed.
+
+Lemma loop_wire f lo : forall rs gfb gfe s, sending_ok s -> lo <= gfb -> (forall r, In r rs -> lo <= r_seq r) ->
   match replay_loop f rs gfb gfe s with
-  | LOk g1 g2 s' => cstate s' = cstate s /\ (forall r, In r (rows s') -> r_seq r < g1)
-  | LExc e s' => e = EDuplicatedTag /\ cstate s' = cstate s
+  | LOk g1 g2 s' => lo <= g1 /\ wext lo s s'
+  | LExc e s' => wext lo s s'
   end.
 Proof.
-  induction rs as [|r rest IH]; intros p gfb gfe s Ha Hb He Hs Hrows; cbn [replay_loop]; [auto|].
-  destruct Ha as [Hp Ha].
-  destruct (is_sess_type (r_type r)) eqn:Hst.
-  { apply (IH (r_seq r + 1)); auto; lia. }
+  induction rs as [|r rest IH]; intros gfb gfe s Hs Hlo Hrs; cbn [replay_loop]; [split; [exact Hlo|apply wext_refl]|].
+  assert (Hrest : forall x, In x rest -> lo <= r_seq x) by (intros x Hx; apply Hrs; right; exact Hx).
+  pose proof (Hrs r (or_introl eq_refl)) as Hr.
+  destruct (is_sess_type (r_type r)) eqn:Hst; [apply IH; assumption|].
   set (s0 := note_call (r_seq r) s).
   assert (Hs0 : sending_ok s0) by exact Hs.
+  assert (Hw0 : wext lo s s0) by (exists []; cbn; rewrite app_nil_r; auto).
   destruct (f r); cbn [negb].
-  2:{ specialize (IH (r_seq r + 1) gfb (r_seq r + 1) s0 Ha ltac:(lia) ltac:(lia) Hs0 Hrows).
-      destruct (replay_loop f rest gfb (r_seq r + 1) s0); exact IH. }
-  assert (Hstep : forall s1, sending_ok s1 -> cstate s1 = cstate s ->
-            (forall x, In x (rows s1) -> r_seq x < r_seq r) ->
+  2:{ specialize (IH gfb (r_seq r + 1) s0 Hs0 Hlo Hrest).
+      destruct (replay_loop f rest gfb (r_seq r + 1) s0); [destruct IH as [? IH]; split; [assumption|]|];
+        exact (wext_trans _ _ _ _ Hw0 IH). }
+  assert (Hstep : forall s1, sending_ok s1 -> wext lo s s1 ->
             match (match mk_replay r with
                    | Some m => match send_msg m s1 with
                                | Ok s2 => replay_loop f rest (r_seq r + 1) gfe s2
@@ -943,70 +1023,56 @@ Proof.
                                end
                    | None => LExc EDuplicatedTag s1
                    end) with
-            | LOk g1 g2 s' => cstate s' = cstate s /\ (forall x, In x (rows s') -> r_seq x < g1)
-            | LExc e s' => e = EDuplicatedTag /\ cstate s' = cstate s
+            | LOk g1 g2 s' => lo <= g1 /\ wext lo s s'
+            | LExc e s' => wext lo s s'
             end).
-  { intros s1 Hs1 Hc1 Hr1. destruct (mk_replay r) as [m|] eqn:Hm; [|auto].
-    destruct (send_replay_gen r m s1 Hs1 Hst Hm (has_key_false _ _ Hr1)) as (fr & Hfr & ->).
-    assert (Hs2 : sending_ok (sent fr s1)) by exact Hs1.
-    assert (Hr2 : forall x, In x (rows (sent fr s1)) -> r_seq x < r_seq r + 1).
-    { intros x Hx. cbn [rows sent] in Hx. apply in_app_or in Hx as [Hx|[<-|[]]]; [specialize (Hr1 _ Hx)|]; lia. }
-    specialize (IH (r_seq r + 1) (r_seq r + 1) gfe (sent fr s1) Ha ltac:(lia) ltac:(lia) Hs2 Hr2).
-    destruct (replay_loop f rest (r_seq r + 1) gfe (sent fr s1)); cbn [cstate sent] in IH; rewrite <- Hc1; exact IH. }
-  destruct (gfb <? gfe) eqn:Hcmp.
-  - rewrite (send_gap_fill gfb gfe s0 Hs0 (has_key_false _ _ Hrows)).
-    apply Hstep; [exact Hs|reflexivity|].
-    intros x Hx. cbn [rows sent] in Hx. apply in_app_or in Hx as [Hx|[<-|[]]]; [specialize (Hrows _ Hx); lia|cbn; lia].
-  - apply Hstep; [exact Hs|reflexivity|]. intros x Hx. specialize (Hrows _ Hx). lia.
+  { intros s1 Hs1 Hw1. destruct (mk_replay r) as [m|] eqn:Hm; [|exact Hw1].
+    rewrite (send_replay_gen r m s1 Hs1 Hst Hm).
+    match goal with |- context [replay_loop f rest ?a ?b (sent ?fr s1)] =>
+      assert (Hs2 : sending_ok (sent fr s1)) by exact Hs1;
+      assert (Hw2 : wext lo s (sent fr s1)) by (apply (wext_trans _ _ _ _ Hw1); apply wext_sent; exact Hr);
+      specialize (IH a b (sent fr s1) Hs2 ltac:(lia) Hrest);
+      destruct (replay_loop f rest a b (sent fr s1)) end;
+      [destruct IH as [? IH]; split; [assumption|]|]; exact (wext_trans _ _ _ _ Hw2 IH). }
+  destruct (gfb <? gfe).
+  - rewrite (send_gap_fill gfb gfe s0 Hs0). apply Hstep; [exact Hs|].
+    apply (wext_trans _ _ _ _ Hw0). apply wext_sent. exact Hlo.
+  - apply Hstep; [exact Hs|exact Hw0].
 Qed.
 
-Definition allowed_exc (x : option exc) : Prop :=
-  match x with
-  | Some EDuplicateSeqNo | Some EConnection | Some EEncoding => False
-  | _ => True
-  end.
-
-(* Whatever the journal (unique keys), the request and the filter: the journal write of a gap fill
-   or a retransmission never meets an existing row (rows >= BeginSeqNo were deleted and the numbers
-   sent are strictly increasing), the state gates never refuse, the encoder always finds a number;
-   and when an exception is swallowed the connection is left in RESENDREQ_HANDLING (unless it was
-   awaiting a resend itself). *)
-Lemma resend_exceptions f s bs es :
-  NoDup (map r_seq (rows s)) ->
-  let (s', x) := process_resend f bs es s in
-  allowed_exc x
-  /\ (x <> None -> cstate s' = (if cstate s =? ST_AWAITING then ST_AWAITING else ST_HANDLING)).
+(* every frame the handler writes - whatever the request - carries a MsgSeqNum of at least 1 *)
+Lemma resend_wire_positive f s bs es : wext 1 s (fst (process_resend f bs es s)).
 Proof.
-  intros Hnd. unfold process_resend.
+  unfold process_resend.
   set (sa := if cstate s =? ST_AWAITING then s else state_set ST_HANDLING s).
-  assert (Hsa : sending_ok sa /\ rows sa = rows s
-                /\ cstate sa = (if cstate s =? ST_AWAITING then ST_AWAITING else ST_HANDLING)).
+  assert (Hsa : sending_ok sa /\ wire sa = wire s).
   { unfold sa, sending_ok. destruct (cstate s =? ST_AWAITING) eqn:E; cbn; [|auto].
     assert (cstate s = ST_AWAITING) by lia. auto. }
-  destruct Hsa as (Hs & Er & Ec). rewrite <- Ec. clearbody sa.
-  destruct bs as [bs|]; [|cbn; auto]. destruct (py_int bs) as [b|]; [|cbn; auto].
-  destruct es as [es|]; [|cbn; auto]. destruct (py_int es) as [e0|]; [|cbn; auto].
+  destruct Hsa as (Hs & Ew).
+  assert (Hw : wext 1 s sa) by (exists []; rewrite app_nil_r; auto).
+  clearbody sa.
+  destruct bs as [bs|]; [|exact Hw]. destruct (py_int bs) as [b0|]; [|exact Hw].
+  destruct es as [es|]; [|exact Hw]. destruct (py_int es) as [e0|]; [|exact Hw].
+  assert (Hb1 : 1 <= clamp1 b0) by (unfold clamp1; destruct (b0 <? 1) eqn:E; lia).
+  revert Hb1. generalize (clamp1 b0). intros b Hb1.
   unfold resend_body. set (e := if e0 =? 0 then sys_maxsize else e0).
-  destruct (fits_int64 b && fits_int64 e); cbn [negb]; [|cbn; auto].
-  unfold set_seq_num_out at 1. destruct (b <=? 0) eqn:Hb0; [cbn; auto|].
-  set (s1 := mkSt (cstate sa) (initiator sa) (testreq_pending sa) b (b - 1) (clock sa)
-                  (filter (fun r => r_seq r <? b) (rows sa)) (wire sa) (calls sa) (states sa)).
-  assert (Hs1 : sending_ok s1) by exact Hs.
-  assert (Hr1 : forall r, In r (rows s1) -> r_seq r < b).
-  { intros r Hr. cbn [rows s1] in Hr. apply filter_In in Hr as [_ Hr]. lia. }
-  assert (Hasc : asc b (recover b e (rows sa))) by (rewrite Er; apply recover_asc; exact Hnd).
-  pose proof (loop_exceptions f _ b b b s1 Hasc ltac:(lia) ltac:(lia) Hs1 Hr1) as Hloop.
-  destruct (replay_loop f (recover b e (rows sa)) b b s1) as [g1 g2 s2|x s2].
-  2:{ destruct Hloop as [-> Hc]. cbn. split; [exact I|intros _; exact Hc]. }
-  destruct Hloop as [Hc2 Hr2].
-  destruct (g2 <=? nout sa); cbn [negb]; [|cbn; auto].
+  destruct (fits_int64 b && fits_int64 e); cbn [negb fst]; [|exact Hw].
+  assert (Hrs : forall r, In r (recover b e (rows sa)) -> 1 <= r_seq r).
+  { intros r Hr. apply in_recover in Hr. lia. }
+  pose proof (loop_wire f 1 _ b b sa Hs Hb1 Hrs) as Hloop.
+  pose proof (loop_general f (recover b e (rows sa)) b b sa Hs) as Hgen.
+  destruct (replay_loop f (recover b e (rows sa)) b b sa) as [g1 g2 s2|x s2]; cbn [fst].
+  2:{ exact (wext_trans _ _ _ _ Hw Hloop). }
+  destruct Hloop as [Hg1 Hw2]. destruct Hgen as (Hc2 & _).
+  destruct (g2 <=? nout sa); cbn [negb fst]; [|exact (wext_trans _ _ _ _ Hw Hw2)].
   assert (Hs2 : sending_ok s2) by (unfold sending_ok; rewrite Hc2; exact Hs).
   assert (Htail : exists s3, (if g1 <? nout sa then send_msg (gap_fill_msg g1 (nout sa)) s2 else Ok s2) = Ok s3
-                             /\ cstate s3 = cstate sa).
+                             /\ wext 1 s2 s3).
   { destruct (g1 <? nout sa).
-    - eexists. split; [apply send_gap_fill; [exact Hs2|apply has_key_false; exact Hr2]|exact Hc2].
-    - exists s2. auto. }
-  destruct Htail as (s3 & -> & Hc3).
-  unfold set_seq_num_out. destruct (nout sa <=? 0); [cbn; auto|].
-  cbn. split; [exact I|congruence].
+    - eexists. split; [apply send_gap_fill; exact Hs2|apply wext_sent; exact Hg1].
+    - exists s2. split; [reflexivity|apply wext_refl]. }
+  destruct Htail as (s3 & -> & Hw3). cbn [fst].
+  assert (Hw03 : wext 1 s s3) by exact (wext_trans _ _ _ _ Hw (wext_trans _ _ _ _ Hw2 Hw3)).
+  destruct (cstate s3 =? ST_AWAITING); [exact Hw03|].
+  destruct Hw03 as (W & E & F). exists W. split; [exact E|exact F].
 Qed.
